@@ -70,6 +70,9 @@ impl RegisterAddress {
     /// Deserialize a hex-encoded representation of a `RegisterAddress` to a `RegisterAddress` instance.
     pub fn from_hex(hex: &str) -> Result<Self> {
         let bytes = hex::decode(hex).map_err(|_| Error::HexDeserializeFailed)?;
+        if bytes.len() != XOR_NAME_LEN + PK_SIZE {
+            return Err(Error::HexDeserializeFailed);
+        }
         let meta_bytes: [u8; XOR_NAME_LEN] = bytes[..XOR_NAME_LEN]
             .try_into()
             .map_err(|_| Error::HexDeserializeFailed)?;
